@@ -420,7 +420,10 @@ func recognise(w *world, pa, pb *parsedOp, f failure) string {
 				}
 			}
 		}
-		if strings.Contains(f.msg, "length of values doesn't match the length of the result array") {
+		// the three ways mergeWithPath / flattenObject / flattenList give up on a nested list
+		if strings.Contains(f.msg, "length of values doesn't match the length of the result array") ||
+			(strings.Contains(f.msg, "not found in object") && strings.Contains(f.msg, `"message":"field `)) ||
+			strings.Contains(f.msg, "expected array or object, got") {
 			for _, p := range pick(f.side) {
 				if w.resolverUnder(p, func(a ancestry) bool { return a.nestedList }) {
 					return findNestedListParent
